@@ -68,6 +68,7 @@ type sink struct {
 	sentinel *errs.Error    // the long-lived error of mode `fails`: the same pointer on every call
 	agg      *errs.Error    // the long-lived two-element aggregate of mode `failm`
 	lvar     *slog.LevelVar // non-nil when the handler family was created with a shared LevelVar
+	nonNil   int            // Write calls of a synchronous sink that returned a non-nil error interface (`err != nil`)
 }
 
 // foreignErr is an error type of somebody else; a nil *foreignErr in an error interface is a "typed nil".
@@ -77,9 +78,14 @@ func (e *foreignErr) Error() string { return "foreign-nil" }
 
 type nothing struct{ _ int }
 
-func (s *sink) Write(p []byte) (int, error) {
+func (s *sink) Write(p []byte) (n int, err error) {
 	s.mu.Lock()
 	defer s.mu.Unlock()
+	defer func() {
+		if err != nil && s.depth == 0 { // the interface value, as the caller of the child sees it
+			s.nonNil++
+		}
+	}()
 	s.inflight = true
 	s.cond.Broadcast()
 	for s.held {
@@ -125,6 +131,10 @@ func (s *sink) Write(p []byte) (int, error) {
 		panic(nil) //nolint:govet // on purpose
 	case "panics": // the sentinel itself as the panic value
 		panic(s.sentinel)
+	default:
+		if strings.HasPrefix(s.mode, "failk:") { // an error value of a given dynamic kind, see errkinds.go
+			return 0, errKinds[s.mode[6:]]
+		}
 	}
 	return len(p), nil
 }
@@ -343,6 +353,19 @@ func (ss *session) sentinels() string {
 	return "sent=" + strings.Join(parts, ",")
 }
 
+// nonNil returns and clears the number of non-nil error interfaces the synchronous sinks handed back since the last
+// operation — counted with `err != nil`, never with the library's own notion of nil.
+func (ss *session) nonNil() string {
+	n := 0
+	for _, s := range ss.sinks {
+		s.mu.Lock()
+		n += s.nonNil
+		s.nonNil = 0
+		s.mu.Unlock()
+	}
+	return "nn=" + strconv.Itoa(n)
+}
+
 type logArea struct{}
 
 func (logArea) Run(line string) string {
@@ -485,7 +508,9 @@ func (ss *session) run(f []string) string {
 				return "bad-op"
 			}
 		default:
-			return "bad-op"
+			if _, known := errKinds[strings.TrimPrefix(f[2], "failk:")]; !known || !strings.HasPrefix(f[2], "failk:") {
+				return "bad-op"
+			}
 		}
 		s.mu.Lock()
 		s.mode = f[2]
@@ -544,7 +569,7 @@ func (ss *session) run(f []string) string {
 		if !ss.settle() {
 			ret += " stuck"
 		}
-		return strings.Join(append(ss.collect(nil), ret, ss.sentinels()), " ")
+		return strings.Join(append(ss.collect(nil), ret, ss.nonNil(), ss.sentinels()), " ")
 	case "logerr": // logerr <h> <level> <msg> attr*  ==  logx LogAttrsWithLevel bg h e <h> <level> <msg> attr*
 		if len(f) < 4 {
 			return "bad-op"
@@ -646,7 +671,11 @@ func (ss *session) logX(f []string) string {
 	case "t":
 		err = (*errs.Error)(nil)
 	default:
-		return "bad-op"
+		v, known := errKinds[strings.TrimPrefix(errKind, "k:")]
+		if !known || !strings.HasPrefix(errKind, "k:") {
+			return "bad-op"
+		}
+		err, errKind = v, "p" // wrapped inside errs like any foreign error (or taken for nil: the model knows which)
 	}
 	var c context.Context = ctx //nolint:staticcheck // a nil context is one of the inputs
 	if ctxKind == "nil" {
@@ -743,7 +772,7 @@ func (ss *session) logX(f []string) string {
 		}
 		return w
 	}
-	return strings.Join(append(ss.collect(canon), ret, ss.sentinels()), " ")
+	return strings.Join(append(ss.collect(canon), ret, ss.nonNil(), ss.sentinels()), " ")
 }
 
 // ---------------------------------------------------------------------------------------------- attribute trees
